@@ -39,7 +39,7 @@ RULE = ('messages built through the public API from valid components: method tok
 	'non-trivial = one message delivered and equal; distinct by (kind, framing, coding, source, sizes)')
 
 METHOD_CHARS = 'ABCDEFGHIJKLMNOPQRSTUVWXYZabcdefghijklmnopqrstuvwxyz0123456789-_.$'
-SEG_ALPHABETS = [u'abcXYZ019-._~', u'a b+&=?#%;:@,!$\'()*', u'äöüßéñÿ', u'€→日本語', u'\U0001f600\U0001f4a9x', u'/a', u'%41%7e']
+SEG_ALPHABETS = [u'abcXYZ019-._~', u'a b+&=?#%;:@,!$\'()*', u'äöüßéñÿ', u'€→日本語', u'\U0001f600\U0001f4a9x', u'/a', u'%41%7e', u'%2541%e9%20o100', u'a%4']
 CTL_ALPHABETS = [u'\x10\x1f\x7fa', u'\x01\x0fa']
 HEADER_NAMES = ['X-Foo', 'X-Bar', 'Accept-Language', 'Cache-Control', 'X-Custom-Header', 'From', 'Pragma', 'Warning']
 DEFAULTED_NAMES = ['User-Agent', 'Accept', 'Accept-Ranges', 'Server', 'Allow']
@@ -73,7 +73,7 @@ def gen_case(rng):
 	segs = tuple(s for s in segs if s not in (u'.', u'..'))
 	query = tuple((word(rng, SEG_ALPHABETS), word(rng, SEG_ALPHABETS, 0, 6)) for _ in range(rng.randrange(0, 4)))
 	status = rng.choice((200, 200, 201, 202, 206, 301, 302, 400, 401, 404, 418, 500, 503, rng.randrange(200, 600)))
-	reason = None if rng.random() < 0.7 else rng.choice(('OK', 'Very Well', 'Nope', 'x'))
+	reason = None if rng.random() < 0.7 else rng.choice(('OK', 'Very Well', 'Nope', 'x', 'Not  Found', 'a\tb', 'Three   spaces'))
 	if reason is None and not known_status(status):
 		reason = 'Custom'      # "every status with a reason phrase": a code the library has no phrase for gets one from the caller
 	version = rng.choice(((1, 1), (1, 1), (1, 0)))
